@@ -61,6 +61,23 @@ theorem reachesSelf_congr (u u' : List LFile) (h : ∀ d, u.find? (·.name = d) 
       funext d
       rw [ih d]
 
+theorem reachNames_congr (u u' : List LFile) (h : ∀ d, u.find? (·.name = d) = u'.find? (·.name = d)) :
+    ∀ (fuel : Nat) (work seen : List Str), reachNames u fuel work seen = reachNames u' fuel work seen := by
+  intro fuel
+  induction fuel with
+  | zero => intro work seen; rfl
+  | succ fuel ih =>
+    intro work seen
+    cases work with
+    | nil => rfl
+    | cons n rest =>
+      rw [reachNames, reachNames, h n]
+      split
+      · exact ih _ _
+      · cases u'.find? (·.name = n) with
+        | none => exact ih _ _
+        | some f => exact ih _ _
+
 theorem linkFile_congr (u u' : List LFile) (h : ∀ d, u.find? (·.name = d) = u'.find? (·.name = d))
     (f : FileSkel) : linkFile u f = linkFile u' f := by
   unfold linkFile
@@ -98,7 +115,18 @@ theorem linkFiles_perm_others (others others' : List LFile) (files : List FileSk
   have hl : (fun f => linkFile (files.map (·.lfile) ++ others ++ builtinFiles) f) =
       fun f => linkFile (files.map (·.lfile) ++ others' ++ builtinFiles) f :=
     funext fun f => linkFile_congr _ _ hfind f
-  simp only [hr]
+  have hls : linkedSet (files.map (·.lfile) ++ others ++ builtinFiles) files =
+      linkedSet (files.map (·.lfile) ++ others' ++ builtinFiles) files := by
+    unfold linkedSet
+    simp only []
+    have hfl : ((files.map (·.lfile) ++ others ++ builtinFiles).flatMap (·.deps)).length =
+        ((files.map (·.lfile) ++ others' ++ builtinFiles).flatMap (·.deps)).length :=
+      (hperm.flatMap_right (·.deps)).length_eq
+    rw [hfl, reachNames_congr _ _ hfind]
+    congr 2
+    funext n
+    rw [hfind n]
+  simp only [hr, hls]
   rw [show files.mapM (linkFile (files.map (·.lfile) ++ others ++ builtinFiles)) =
       files.mapM (linkFile (files.map (·.lfile) ++ others' ++ builtinFiles)) from by
     have := hl; simp only [] at this; rw [show linkFile (files.map (·.lfile) ++ others ++ builtinFiles) =
